@@ -20,6 +20,7 @@ struct Ctx {
     const char *opname{""};
     bool        failed{false};
     int         width{1};
+    size_t      node_cap{150}; // growing operations are skipped beyond this many model nodes (large-container scenario: more)
     void fail(const char *cls, const char *obs, const std::string &detail) {
         if (!failed) qsim::report(cls, std::string("value:") + opname + ":" + obs, detail);
         failed = true;
@@ -46,9 +47,20 @@ static const double nice_doubles[] = {0.0, -0.0, 1.0, -1.0, 0.5, -2.25, 1.0 / 3.
 static double pattern_double(uint64_t tok) {
     static const uint64_t mant[] = {0xFFFFFFFFFFFFFULL, 0x0ULL, 0x1ULL, 0x8000000000000ULL, 0x5555555555555ULL, 0xAAAAAAAAAAAAAULL,
                                     0xFFFFFFFFFFFFEULL, 0x7FFFFFFFFFFFFULL, 0x0000000000FFFULL, 0xFFFFF00000000ULL};
+    // doubles that reach edges of Digit.hpp / BigInt.hpp which random doubles almost never reach (harvested offline by
+    // coverage novelty over 2.4e9 candidates, tools/harvest_doubles.cpp)
+    static const uint64_t rare[] = {
+#include "rare_doubles.inc"
+    };
+    if (tok % 23 == 5) {
+        double r;
+        memcpy(&r, &rare[(tok / 23) % (sizeof(rare) / sizeof(rare[0]))], 8);
+        return r;
+    }
     uint64_t m = mant[tok % 10];
     if ((tok / 10) % 4 == 3) m = (tok * 0x9E3779B97F4A7C15ULL) & 0xFFFFFFFFFFFFFULL;
     int64_t  e    = (int64_t)((tok / 40) % 141) - 70; // 2^-70 .. 2^70
+    if ((tok / 11) % 3 == 0) e = (int64_t)((tok / 40) % 2046) - 1022; // a third of them: any binade (multi-word BigInt paths)
     uint64_t bits = ((tok / 7) & 1 ? 0x8000000000000000ULL : 0) | ((uint64_t)(1023 + e) << 52) | m;
     double   d;
     memcpy(&d, &bits, 8);
@@ -573,6 +585,7 @@ struct ValW {
         VT   *cur = root[r].p;
         Node *n   = &model[r];
         for (int level = 0; level < 3; level++) {
+            if (sel >> 40) break; // selector of the large-container scenario: the root itself, whatever its size
             uint64_t d = sel % 8;
             sel /= 8;
             if (n->kind == Node::Object && !n->members.empty()) {
@@ -616,7 +629,7 @@ struct ValW {
 
     // limits keep trees small
     bool too_big() {
-        return model[0].count_nodes() + model[1].count_nodes() > 150;
+        return model[0].count_nodes() + model[1].count_nodes() > cx.node_cap;
     }
 
     void obj_merge(Node &dst, const Node &src) {
@@ -1390,6 +1403,83 @@ static void generate(Plan &plan, uint64_t seed, int tier) {
     int w             = (int)cfg.below(3);
     plan.cfg["width"] = w == 0 ? 1 : w == 1 ? 2 : 4;
     int width         = (int)plan.cfg["width"];
+    if (cfg.chance(1, 120)) {
+        // large container at the root: member counts around the powers of two from 128 to 1024 (item blocks larger than
+        // a page, many rehashes), holes punched into it, then the keyed / indexed writes, compress, copies, merges and
+        // checkpoints that have to rebuild or extend it
+        plan.cfg["scenario"] = 2;
+        int  j    = (int)cfg.below(2);
+        bool obj  = cfg.chance(2, 3);
+        auto push = [&](int kind, const U32 &k1, int64_t tok, int64_t var, bool light, int64_t root) {
+            Op op;
+            op.kind = kind;
+            op.a[0] = root;
+            op.a[1] = (int64_t)1 << 41; // the root itself
+            op.a[2] = (int64_t)1 << 41;
+            op.a[3] = tok;
+            op.a[4] = var;
+            op.a[5] = light ? 1 : 0;
+            op.s.push_back(pack_units(k1));
+            op.s.push_back(pack_units(ascii("x,")));
+            plan.ops.push_back(op);
+        };
+        static const size_t around[] = {128, 256, 259, 300, 512, 1024};
+        size_t              target   = around[cfg.below(6)];
+        size_t              n        = cfg.chance(1, 2) ? target : target - 3 + (size_t)cfg.below(7);
+        std::vector<U32>    pool;
+        for (size_t i = 0; i < n + 40; i++) pool.push_back(ascii(((i % 2 ? "m" : "member-") + std::to_string((i * 7919) % 100003)).c_str()));
+        std::vector<U32> live;
+        for (size_t i = 0; i < n; i++) {
+            if (obj) {
+                push(ops.chance(3, 4) ? V_SUBSCRIPT_KEY : V_GET_KEY, pool[i], (int64_t)ops.below(1 << 20), 8 | (int64_t)ops.below(4), i + 1 < n, j);
+                live.push_back(pool[i]);
+            } else
+                push(ops.chance(1, 2) ? V_APPEND_SCALAR : V_APPEND_STRING, pool[i], (int64_t)ops.below(1 << 20), (int64_t)ops.below(64), i + 1 < n, j);
+        }
+        size_t phases = 2 + (size_t)cfg.below(5);
+        bool   boundary_first = cfg.chance(1, 2);
+        for (size_t ph = 0; ph < phases; ph++) {
+            uint64_t what = cfg.below(9);
+            if (boundary_first && ph < 2) what = ph;
+            switch (what) {
+                case 0: { // holes: down to a power of two, or a random share
+                    size_t total = obj ? live.size() : n;
+                    size_t keep  = cfg.chance(1, 2) ? (size_t(1) << (1 + cfg.below(9))) : (size_t)cfg.below(total + 1);
+                    size_t drop  = total > keep ? total - keep : 0;
+                    for (size_t i = 0; i < drop; i++) {
+                        if (obj) {
+                            size_t at = (size_t)ops.below(live.size());
+                            push(V_REMOVE_KEY, live[at], 0, (int64_t)ops.below(3), i + 1 < drop, j);
+                            live.erase(live.begin() + (long)at);
+                        } else
+                            push(V_REMOVE_INDEX, U32(), (int64_t)ops.below(1 << 20), 0, i + 1 < drop, j);
+                    }
+                    break;
+                }
+                case 1: { // new members
+                    size_t m = 1 + (size_t)ops.below(4);
+                    for (size_t i = 0; i < m; i++) {
+                        const U32 &k = pool[n + (size_t)ops.below(40)];
+                        if (obj) {
+                            static const int kinds[] = {V_SUBSCRIPT_KEY, V_GET_KEY, V_INSERT};
+                            push(kinds[ops.below(3)], k, (int64_t)ops.below(1 << 20), 8 | (int64_t)ops.below(4), false, j);
+                            if (std::find(live.begin(), live.end(), k) == live.end()) live.push_back(k);
+                        } else
+                            push(ops.chance(1, 2) ? V_APPEND_SCALAR : V_SUBSCRIPT_INDEX, k, (int64_t)ops.below(1 << 20), (int64_t)ops.below(64), false, j);
+                    }
+                    break;
+                }
+                case 2: push(V_COMPRESS, U32(), 0, 0, false, j); break;
+                case 3: push(V_CHECKPOINT, U32(), (int64_t)ops.below(1 << 20), (int64_t)ops.below(64), false, j); break;
+                case 4: push(V_ASSIGN_VALUE_COPY, U32(), 0, 0, false, 1 - j); break;
+                case 5: push(ops.chance(1, 2) ? V_MERGE_COPY : V_MERGE_MOVE, U32(), 0, (int64_t)ops.below(64), false, 1 - j); break;
+                case 6: push(ops.chance(1, 2) ? V_APPEND_VALUE_COPY : V_APPEND_VALUE_MOVE, U32(), 0, (int64_t)ops.below(64), false, 1 - j); break;
+                case 7: push(ops.chance(1, 2) ? V_ROOT_COPY_CTOR : V_ROOT_MOVE_CTOR, U32(), 0, 0, false, 1 - j); break;
+                default: push(V_ASSIGN_VALUE_MOVE, U32(), 0, 0, false, 1 - j);
+            }
+        }
+        return;
+    }
     size_t nops       = 4 + (size_t)cfg.below(tier ? 80 : 56);
     if (cfg.chance(1, 4)) nops = 2 + (size_t)cfg.below(8);
     uint64_t emphasis = cfg.next() | cfg.next();
@@ -1420,7 +1510,7 @@ static void drive(Plan &plan, Ctx &cx, size_t &executed) {
         if (cx.failed || qsim::run_aborted()) break;
         w->exec(op);
         executed++;
-        if (!cx.failed) w->check();
+        if (!cx.failed && op.a[5] == 0) w->check(); // (bulk phases of the large-container scenario are checked at their end)
     }
     w->teardown();
     delete w;
@@ -1430,6 +1520,7 @@ static bool execute(Plan &plan) {
     size_t executed = 0;
     Ctx    cx;
     cx.width = (int)plan.get("width", 1);
+    if (plan.get("scenario", 0) == 2) cx.node_cap = 2600;
     qsim::run_single([&]() {
         if (cx.width == 1)
             drive<char>(plan, cx, executed);
